@@ -68,6 +68,21 @@ def run(A, R: Report, thorough: bool):
             shared.append((n, tgt, o))
         elif o != tgt and o not in fdec.params and not any(isinstance(x, ast.Assign) and any(src(t) == o for t in x.targets) for x in A.typer.own_nodes(fdec)):
             shared.append((n, tgt, o))
+    # a container handed out by a memoised function is one object for all calls
+    for n in A.typer.own_nodes(fdec):
+        if isinstance(n, ast.Assign) and isinstance(n.value, ast.Call):
+            tgs_ = [t_.func for t_ in A.typer.call_targets(n.value, Ctx(fdec, None)) if t_.kind == 'func']
+            memo = [g_ for g_ in tgs_ if any(src(d_).split('(')[0].split('.')[-1] in ('lru_cache', 'cache', 'cached_property') for d_ in getattr(g_.node, 'decorator_list', []))]
+            if memo:
+                tnames = {x.id for t_ in n.targets for x in ast.walk(t_) if isinstance(x, ast.Name)}
+                for m_ in A.typer.own_nodes(fdec):
+                    tgt_ = None
+                    if isinstance(m_, ast.Call) and isinstance(m_.func, ast.Attribute) and m_.func.attr in ('update', 'setdefault', 'pop', 'clear', 'append', 'extend', '__setitem__') and isinstance(m_.func.value, ast.Name):
+                        tgt_ = m_.func.value.id
+                    elif isinstance(m_, ast.Subscript) and isinstance(m_.ctx, ast.Store) and isinstance(m_.value, ast.Name):
+                        tgt_ = m_.value.id
+                    if tgt_ is not None and origin(tgt_) in tnames:
+                        shared.append((m_, tgt_, f'{origin(tgt_)} (returned by the memoised {memo[0].short})'))
     R.check(not shared, 'R16.1', 'cached.decorated: per-call binding', key_of('shared-binding', sorted({o for _, _, o in shared})), 'only per-call objects are mutated',
             f'`{src(shared[0][0])[:60]}` mutates `{shared[0][2]}`, which is created once per decorated method and shared by all calls: arguments of one call become the "defaults" of later calls' if shared else '',
             where=where(fdec, shared[0][0]) if shared else where(fdec))
